@@ -91,11 +91,18 @@ def build(repo=None):
         def eq_hook(e, s, a, b):
             # a callable / class / descriptor object is not equal to the string "context"
             for x, y in ((a, b), (b, a)):
-                if isinstance(y, Z) and y.kind == "str" and isinstance(x, (Opaque, Ref)):
+                if isinstance(y, Z) and y.kind == "str" and z3.is_string_value(y.t) and y.t.as_string() == "context" and isinstance(x, (Opaque, Ref)):
                     return z3.BoolVal(False)
             return None
 
         eng.method_models["__eq__"] = eq_hook
+
+        def getitem_hook(e, s, v, a, kw, nd):
+            if isinstance(v, Opaque) and v.tag.startswith("globals:") and a and isinstance(a[0], Z) and z3.is_string_value(a[0].t) and a[0].t.as_string() == "__name__":
+                return [(s, v.attrs["__modname__"])]
+            return None
+
+        eng.method_models["__getitem__"] = getitem_hook
         wraps_of = {}
 
         def m_wraps(e, s, recv, a, kw, nd):
@@ -231,18 +238,32 @@ def build(repo=None):
             ob["serves"] = [c[:3]] if c[:3] in ("C05", "C07", "C19") else ["C07"]
             if c.startswith("C19"):
                 ob["serves"] = ["C19", "C07"]
+            if "function-is-replaced-by-functools.wraps" in c or "dataclass-__init__-is-replaced" in c:
+                # every decorated callable gets the wrapper that opens its own context and runs the checks (C05, C02, C13 depend on it)
+                ob["serves"] = ["C07", "C05", "C02", "C13", "C19"]
             obligations.append(ob)
 
-    fn_plain = Opaque("fn", attrs={"__name__": Z("str", z3.String("fn_name")), "__qualname__": Z("str", z3.String("fn_qualname")), "__module__": Z("str", z3.String("fn_module")), "__annotations__": Opaque("annotations")})
+    def globals_of(modname):
+        # fn.__globals__["__name__"]: the module the function object was defined in
+        return Tup([Z("str", z3.StringVal(modname))])  # indexed only with "__name__" (see index hook below)
+
+    def fn_like(tag, modname):
+        return Opaque(tag, attrs={"__name__": Z("str", z3.String("fn_name")), "__qualname__": Z("str", z3.String("fn_qualname")), "__module__": Z("str", z3.String("fn_module")),
+                                  "__annotations__": Opaque("annotations"), "__globals__": Opaque("globals:" + modname, attrs={"__modname__": Z("str", z3.StringVal(modname))})})
+
+    fn_plain = fn_like("fn", "user_module")
+    fn_wrapped_already = fn_like("fn", "jaxtyping._decorator")  # e.g. the result of an inner jaxtyped(typechecker=None)
     run_case(Z("str", z3.StringVal("context")), False, "context")
     run_case(Z("str", z3.StringVal("context")), True, "context+checker")
     run_case(sentinel, True, "no-fn")
     run_case(sentinel, False, "no-fn")
     mk_cls = lambda attrs: (lambda st: st.alloc(Obj("user-class", attrs, tag="fn")),)
-    init_plain = Opaque("user.__init__", attrs={"__globals__": Opaque("globals-of-user-module")})
+    init_plain = Opaque("user.__init__", attrs={"__globals__": Opaque("globals:user_module", attrs={"__modname__": Z("str", z3.StringVal("user_module"))})})
+    init_wrapped = Opaque("user.__init__", attrs={"__globals__": Opaque("globals:jaxtyping._decorator", attrs={"__modname__": Z("str", z3.StringVal("jaxtyping._decorator"))})})
     run_case(mk_cls({"__init__": init_plain}), True, "class:dataclass", isclass=True, is_dc=True)
     run_case(mk_cls({"__init__": init_plain}), False, "class:dataclass-unchecked", isclass=True, is_dc=True)
     run_case(mk_cls({"__init__": init_plain}), True, "class:plain", isclass=True, is_dc=False)
+    run_case(mk_cls({"__init__": init_wrapped}), True, "class:dataclass-already-wrapped", isclass=True, is_dc=True, already=True)
     for d in ("classmethod", "staticmethod"):
         inner = Opaque(f"{d}.__func__")
         for tcg in (True, False):
@@ -251,6 +272,7 @@ def build(repo=None):
         attrs = {n: (Opaque(f"prop.{n}") if v else NONE) for n, v in zip(("fget", "fset", "fdel"), slots)}
         run_case((lambda st, attrs=attrs: st.alloc(Obj("property", dict(attrs), tag="fn")),), True, "property:" + "".join(x or "-" for x in slots), desc="property")
     run_case(fn_plain, True, "function:new-style")
+    run_case(fn_wrapped_already, True, "function:new-style-over-an-existing-jaxtyped-wrapper")
     run_case(fn_plain, False, "function:old-style")
     run_case(fn_plain, False, "function:old-style-generator", gen=True)
     obligations.append({"clause": "canary-struct:dispatch-paths", "kind": "canary", "pc": [], "goal": z3.BoolVal(paths == 0), "path": [], "meta": {}})
